@@ -17,7 +17,7 @@ DIMS = [
  ("async", ["def", "async def"]),
  ("placement", ["module", "test-class", "plain-class", "nested-in-function"]),
  ("params", ["none", "one", "many", "posonly", "kwonly", "defaults", "annotated", "varargs", "request"]),
- ("body", ["return", "yield", "yield-in-with", "yield-in-async-with", "yield-in-try", "yield-in-except", "yield-in-else", "yield-in-finally", "yield-in-for", "yield-in-while", "yield-in-if", "yield-in-elif", "x=yield", "yield-from", "yield-in-nested-def", "yield-in-lambda"]),
+ ("body", ["return", "yield", "yield-in-with", "yield-in-async-with", "yield-in-try", "yield-in-except", "yield-in-else", "yield-in-finally", "yield-in-for", "yield-in-while", "yield-in-if", "yield-in-elif", "x=yield", "yield-from", "yield-in-nested-def", "yield-in-lambda", "try-then-yield", "if-then-yield", "for-then-yield", "while-then-yield", "with-then-yield", "try-finally-then-yield-in-if", "match-then-yield", "yield-in-match", "yield-in-try-star", "yield-in-except-star"]),
  ("ret", ["none", "int", "mod.T", "List[int]", "Generator[int, None, None]", "Iterator[int]", "int | None", '"Fwd"', "Dict[str, List[int]]", "Generator[Dict[str, int], None, None]"]),
  ("doc", ["none", "one-line", "multi-indented", "blank-first-last", "raw", "triple-single", "not-first-statement", "non-ascii", "tab-indented"]),
  ("style", ["decorator", "assignment"]),
@@ -32,6 +32,12 @@ BODIES = [
  ["for i in range(1):", "    yield i"], ["while True:", "    yield 1", "    break"], ["if True:", "    yield 1"],
  ["if False:", "    pass", "elif True:", "    yield 1"], ["x = yield 1"], ["yield from [1]"],
  ["def inner():", "    yield 1", "return inner"], ["f = lambda: (yield)", "return f"],
+ # a yield-free compound statement BEFORE the statement that yields
+ ["try:", "    v = 1", "except Exception:", "    v = 2", "yield v"], ["if SCOPE:", "    v = 1", "else:", "    v = 2", "yield v"],
+ ["for i in range(1):", "    pass", "yield 1"], ["while False:", "    pass", "yield 1"], ['with open("f") as fh:', "    pass", "yield 1"],
+ ["try:", "    v = 1", "finally:", "    pass", "if v:", "    yield v"],
+ ["match SCOPE:", "    case 'x':", "        v = 1", "    case _:", "        v = 2", "yield v"], ["match SCOPE:", "    case 'x':", "        yield 1", "    case _:", "        yield 2"],
+ ["try:", "    yield 1", "except* ValueError:", "    pass"], ["try:", "    pass", "except* ValueError:", "    yield 1"],
 ]
 RETS = [None, "int", "mod.T", "List[int]", "Generator[int, None, None]", "Iterator[int]", "int | None", '"Fwd"', "Dict[str, List[int]]", "Generator[Dict[str, int], None, None]"]
 DOCS = [None, ['"""One line."""'], ['"""Summary.', "", "    Indented body", "      more", '    """'], ['"""', "    Starts after blank.", "", '    """'],
